@@ -565,6 +565,8 @@ PATHS = {
     ("ActionValueDim", "Axis2D"): "ActionValueDim.dAxis2D", ("ActionValueDim", "Axis3D"): "ActionValueDim.dAxis3D",
 }
 ENUMS = {"ActionValue", "ActionValueDim", "ConditionKind", "DeadZoneKind", "Accumulation"}
+CALL_RENAME = {}   # method-call renames a unit may install (trait-object calls: evaluate -> evaluate_obj, …)
+OBJ_MUTATING = set()  # `&mut self` trait-object methods returning a value: `let x = obj.m(args)` rebinds `obj` as well
 MUTATING = set()  # names of `&mut self` methods returning `()` seen in the translated units (filled by translate_unit)
 FRESH = [0]
 
@@ -661,6 +663,7 @@ def expr(e, ctx):
         if name in ("clone", "to_owned"):
             return expr(recv, ctx)
         name = {"abs": "fabs", "max": "fmax", "min": "fmin", "signum": "fsignum"}.get(name, name)
+        name = CALL_RENAME.get(name, name)
         a = " ".join(atom(x, ctx) for x in args)
         return f"({atom(recv, ctx)}.{name}" + (f" {a})" if a else ")")
     if k == "call":
@@ -772,6 +775,8 @@ def set_path(root, path, value):
 
 
 def result(ctx, value):
+    if getattr(ctx, "loop_result", None) is not None:
+        return ctx.loop_result
     if ctx.self_mode == "mut":
         r = "self" if ctx.ret_unit else f"(self, {value})"
     else:
@@ -801,6 +806,12 @@ def seq(stmts, tail, k, ctx, ind):
             return self_call(tail, ctx)
         return result(ctx, expr(tail, ctx))
     s, rest = stmts[0], stmts[1:]
+    if s[0] == "let" and s[2][0] == "mcall" and s[2][2] in OBJ_MUTATING and s[2][1][0] == "path" and len(s[2][1][1]) == 1 \
+            and s[1][0] == "pbind":
+        obj = lean_ident(s[2][1][1][0])
+        a = " ".join(atom(x, ctx) for x in s[2][3])
+        m = CALL_RENAME.get(s[2][2], s[2][2])
+        return f"let ({obj}, {lean_ident(s[1][1])}) := ({obj}.{m} {a})\n{pad}" + seq(rest, tail, k, ctx, ind)
     if s[0] == "let":
         p_, e, mut = s[1], s[2], s[3]
         if p_[0] == "pbind" and (mut or p_[2] if len(p_) > 2 else mut):
